@@ -29,6 +29,9 @@ type RestartScenario struct {
 	Skipper *SkipSpec `json:"skipper,omitempty"`
 	Observe bool      `json:"observe,omitempty"`
 	K       int       `json:"k,omitempty"` // stream carried in 188+K byte packets (explicit size 188+K, or auto for K<=4)
+	// AutoFail: 204-byte packets with auto-detection, which cannot succeed (no second sync byte in
+	// the first 193 bytes): every call fails after consuming input; Rewind must undo that too
+	AutoFail bool `json:"auto_fail,omitempty"`
 }
 
 type restart struct{}
@@ -127,6 +130,9 @@ func (restart) Generate(r *core.PRNG, tier string, idx int64) any {
 	if r.Chance(1, 6) {
 		sc.K = []int{4, 16, 2}[r.Intn(3)]
 	}
+	if r.Chance(1, 12) {
+		sc.AutoFail, sc.K, sc.Demux.PacketSize = true, 16, 0
+	}
 	if idx%2 == 0 {
 		sc.Enum = true
 		return sc
@@ -162,8 +168,12 @@ func (restart) Execute(scAny any, keepLog bool) *core.Outcome {
 	}
 	data := reframe(b.Packets, k)
 	cfg := sc.Demux
-	if cfg.PacketSize != 0 || k > 4 {
+	if cfg.PacketSize != 0 || (k > 4 && !sc.AutoFail) {
 		cfg.PacketSize = 188 + k
+	}
+	if sc.AutoFail {
+		cfg.PacketSize = 0
+		out.Probe("rewind-after-failed-detection")
 	}
 	cfg.Reader.Kind = "seekable"
 	var nGroups int
@@ -319,7 +329,7 @@ func (restart) Execute(scAny any, keepLog bool) *core.Outcome {
 			out.Violate("C20", cls, sig, "after Rewind (steps %v, size option %d) the delivered sequence differs from a fresh Demuxer's: %s", steps, cfg.PacketSize, msg)
 		}
 		if len(out.Violations) > pre {
-			out.Narrow(pre, &RestartScenario{Model: sc.Model, Demux: sc.Demux, Steps: steps, Skipper: sc.Skipper, Observe: sc.Observe, K: sc.K})
+			out.Narrow(pre, &RestartScenario{Model: sc.Model, Demux: sc.Demux, Steps: steps, Skipper: sc.Skipper, Observe: sc.Observe, K: sc.K, AutoFail: sc.AutoFail})
 		}
 		if len(steps) > 0 && steps[0].N > 0 {
 			out.FP(fmt.Sprintf("%s/%d/%d", fp, cfg.PacketSize, len(steps)))
